@@ -318,9 +318,36 @@ def run(ctx):
         insts = [(os.environ['VERIF_C10_INST'], a[0], int(a[1]))]
     ctx.bounds['instances'] = [dict(zip(('name', 'scenario', 'rounds'), i)) for i in insts]
     ctx.parallel(job, insts)
+    # the exit sequence releases the name exactly once (no later, stale unregister that could hit a successor): whole real exit path of a named actor
+    import C10_release
+    import C10_release_replay
+    import lifeprops as lp
+    import lifecycle as lc
+    rel = C10_release.instances(ctx.tier)
+    lprog = lc.load()[0]
+    for rt in sorted({i[0] for i in rel}):
+        lp.encoded(ctx, lprog, rt)
+    ctx.bounds['release'] = {'instances': [dict(zip(('runtime', 'poll_budget'), i)) for i in rel],
+                             'scope': 'layered lifecycle exploration of a named actor (as C01 / C04: L1 process_message classes, L2 start + task + processing_loop + lifecycle guard, task cancellation at every suspension point); '
+                                      'registry::unregister / unregister_pid recorded as effects'}
+    ctx.parallel(C10_release.job, rel)
+    try:
+        r = C10_release_replay.run_native()
+        ctx.translator_validated += 1
+        ctx.extra['release_native'] = r
+        if r['violated']:
+            rec = {'name': 'release.native_battery', 'group': 'C10.release', 'solver_s': 0.0, 'status': 'cex'}
+            ctx.obligations.append(rec)
+            ctx.handle_cex(rec['name'], 'C10.release.native', None, lambda _m: {'replayed': True, 'detail': 'real name reuse while the predecessor is in post_stop: %s' % r, 'replay': {'which': 'release'}}, rec)
+    except RuntimeError as e:
+        ctx.inconclusive.append('release native scenario unavailable: %s' % str(e)[-300:])
 
 
 def replay_file(path):
     import json
     import C10_replay
-    return C10_replay.replay_from_json(json.load(open(path)))
+    d = json.load(open(path))
+    if (d.get('replay') or {}).get('which') == 'release':
+        import C10_release_replay
+        return C10_release_replay.replay_from_json(d)
+    return C10_replay.replay_from_json(d)
